@@ -842,8 +842,8 @@ func init() {
 			"google.golang.org/grpc/internal/transport.(*recvBufferReader).read",
 			"google.golang.org/grpc/internal/transport.(*writeQuota).get",
 		},
-		Gen:         c15Gen,
-		Exec:        c15Exec,
+		Gen:  c15Gen,
+		Exec: c15Exec,
 		Sample: func(c fw.Case, r fw.Result) interface{} {
 			var cc c15Case
 			c.Decode(&cc)
